@@ -271,6 +271,7 @@ def gen_spec(rng, malformed=False):
                         pass
             else:
                 e = rng.choice(pool) if rng.random() < 0.7 else rng.choice(['0', '1', '2', 'abc', '7.0', '3'])
+                e = e.replace('"', '').replace("'", '') or '1'      # a quote inside the expression breaks DataFrame.query
                 if e[0] in '.=<>/' or any(ch in e for ch in '"\',;()= \t') or not e:
                     e = "'" + e.replace("'", '') + "'" if '"' in e or rng.random() < 0.5 else '"' + e.replace('"', '') + '"'
                 elif rng.random() < 0.15:
@@ -724,6 +725,8 @@ def run(ctx):
     ctx.assumptions += [
         'items containing letters other than eEdD that Python float() accepts (nan, inf, infinity), non-ASCII digits and '
         'non-ASCII whitespace are outside the modelled alphabet (not generated)',
+        'filter expressions containing a quote character, a sign or a leading zero (DataFrame.query parses them as Python '
+        'source), int32 overflow of ID/L1/DVID and duplicate dropped column names are outside the model (not generated)',
         'numeric IGNORE/ACCEPT comparisons are made on exact decimal values; pandas compares the rounded doubles '
         '(identical for items of at most 15 significant digits, which is what is generated)',
         'a dropped TIME column, DATE/DAT1-3 columns and TIME/DATE translation are not covered; $PK models '
@@ -740,8 +743,8 @@ def run(ctx):
     specs = [json.loads(p.read_text()) for p in reg]
     specs = [s['spec'] if 'spec' in s else s for s in specs]
     nreg = len(specs)
-    n = 700 if ctx.tier == 'quick' else 11000
-    nm = 150 if ctx.tier == 'quick' else 2500
+    n = 700 if ctx.tier == 'quick' else 9000
+    nm = 150 if ctx.tier == 'quick' else 2000
     specs += [gen_spec(ctx.rng) for _ in range(n)]
     specs += [gen_spec(ctx.rng, malformed=True) for _ in range(nm)]
     kept, verdicts, infos, skipped = run_specs(ctx, specs, 'gen')
